@@ -93,6 +93,7 @@ EQ_SHAPES_1 = {
     "namedtuple": ("NT(a=n0, b=n1)", ["n0", "n1"]),
     "defaultdict": ("defaultdict(list, {1: [n0]})", ["n0"]),
     "consts": ("[n0, Color.red, Perm.r | Perm.x, P, None, True, 's', b'b', {2, 1}, frozenset({3}), 1.5, set(), frozenset()]", ["n0"]),
+    "dc_init_false": ("[PI(n0), PI(a=n1)]", ["n0", "n1"]),
     "flag_zero": ("[n0, Perm(0), Perm(0) | Perm.x]", ["n0"]),
     "flag_zero_top": ("Perm(0)", []),
     "hasrepr": ("[n0, Weird(1)]", ["n0"]),
@@ -166,7 +167,7 @@ def conditions(tier):
 
 
 META = {
-    "bounds": {"quick": "4 families with values of one type whose repr is valid Python for some values only; 30 value shapes (incl. pydantic models with Any-typed fields, one filled in place; a tuple holding a list that keeps growing) up to depth 2 / width 3 (lists, tuples 0/1/2, dicts, dataclass with default and default_factory, attrs, namedtuple, defaultdict, Enum, Flag, class, None, bool, str, bytes, float, set, frozenset, HasRepr) with symbolic int leaves; 5 operations; placements assert / helper argument / module level / loop; <=3 observations",
+    "bounds": {"quick": "4 families with values of one type whose repr is valid Python for some values only; 31 value shapes (incl. pydantic models with Any-typed fields, one filled in place; a tuple holding a list that keeps growing) up to depth 2 / width 3 (lists, tuples 0/1/2, dicts, dataclass with default and default_factory, attrs, namedtuple, defaultdict, Enum, Flag, class, None, bool, str, bytes, float, set, frozenset, HasRepr) with symbolic int leaves; 5 operations; placements assert / helper argument / module level / loop; <=3 observations",
                "thorough": "all shapes x all placements; <=3 observations everywhere"},
     "outside": "unbounded size/nesting; str/bytes leaves as symbolic values (C12); externals (C13); pydantic models only with Any-typed fields (typed fields are validated in C code, which realises symbolic ints); layouts other than the templates'",
     "assumptions": ["stub: repr of a symbolic int leaf is a name token; concrete replays use real repr",
